@@ -1584,6 +1584,18 @@ class Sequential(Context):
     def _pushed_resettable_signals(self):
         pushed = IdSet()
         resettable = IdSet()
+        always_written = IdSet()
+
+        if self._always_expr is not None:
+            # targets of always expressions are driven by a separate
+            # concurrent statement, not by the process of this context
+
+            def visit_always_objects(obj, access: AccessFlags):
+                if access & (AccessFlags.PUSH | AccessFlags.WRITE):
+                    always_written.add(obj._root)
+                return obj
+
+            self._always_expr.code().visit_objects(visit_always_objects)
 
         def visit_objects(obj, access: AccessFlags):
             if access & AccessFlags.PUSH:
@@ -1591,12 +1603,18 @@ class Sequential(Context):
 
             if access & (AccessFlags.PUSH | AccessFlags.WRITE):
                 root = obj._root
+                assert root not in always_written, (
+                    f"object '{root}, name={root.name()}' is driven by an always expression"
+                    " and by the sequential code of the same context"
+                )
                 if root.has_default() and not root._noreset:
                     resettable.add(root)
 
             return obj
 
-        self.visit_objects(visit_objects)
+        # only visit the code of the process itself, otherwise the reset branch
+        # would add a second driver for the targets of always expressions
+        Context.visit_objects(self, visit_objects)
 
         def visit_statements(stmt):
             if isinstance(stmt, _ResetContext):
